@@ -89,8 +89,11 @@ class StoreValues(Scenario):
                         cx.prove(ok, f"element {i}: accepted integer value is integral and inside the 32-bit range",
                                  "unrepresentable values rejected")
                 elif kind == "boolean":
-                    cx.prove(ch == "s" and Or(eq(v, 0), eq(v, 1)) if ch == "s" else False,
-                             f"element {i}: accepted boolean value is 0 or 1", "unrepresentable values rejected")
+                    if ch == "s":
+                        cx.prove(Or(eq(v, 0), eq(v, 1)), f"element {i}: accepted boolean value is 0 or 1",
+                                 "unrepresentable values rejected")
+                    elif ch in "+-":
+                        cx.prove(False, f"element {i}: infinity accepted by boolean data", "unrepresentable values rejected")
             store = h5shim.store_of(ws.h5file)
             raw = None
             for path, payload in store.items():
@@ -169,8 +172,7 @@ def scenarios(tier, seed):
             S.append(StoreValues(kind="boolean", dtype=dt, pattern="ss"))
         for pat in ("sn", "+", "-", "s+", "sss", "ns-"):
             S.append(StoreValues(kind="integer", dtype="float64", pattern=pat))
-            S.append(StoreValues(kind="integer", dtype="float32", pattern=pat))
-        S += [StoreValues(kind="boolean", dtype="bool", pattern="sss"), StoreValues(kind="boolean", dtype="float64", pattern="sn")]
+        S += [StoreValues(kind="boolean", dtype="bool", pattern="sss")]
     return S
 
 
@@ -188,7 +190,7 @@ def main(tier, seed):
             "the documented exception (a float exactly equal to the float no-data sentinel) is excluded by precondition",
         ],
         outside=["text / comment / file / blob values and value maps (strings are not symbolic in this engine)",
-                 "float rounding, float32 storage of concatenated data", "arrays longer than 3", "datetime"],
+                 "float rounding; float32 input arrays for integer data (boundary values are not representable in float32); boolean data given float arrays", "float32 storage of concatenated data", "arrays longer than 3", "datetime"],
         bounds={"quick": "arrays of 1-3 elements, each a symbolic finite value / NaN / +inf / -inf; float, integer and boolean "
                          "data; input dtypes float64, int64, int32, uint32, bool; magnitudes unbounded within the dtype",
                 "thorough": "all of numpy's integer dtypes and float32/float64 as input dtype for each data kind"}[tier],
